@@ -15,6 +15,7 @@ ASSUMPTIONS = ["the Go scheduler actually runs W runnable goroutines (the lower 
 
 def corpus():
     return [
+        "pool.usable 4096 3",                             # C04l: thousands of workers, thousands of requests: every worker gets one
         "progress.stress 8 60000 0 0 rising",              # C04k: every record a new maximum / minimum: no recorder may get stuck publishing it
         "progress.stress 16 30000 3 0 rising",
         "pool.usable 8 150", "pool.usable 2 200", "pool.usable 16 60",
